@@ -435,18 +435,28 @@ def main():
         jobs = jobs[:a.limit]
     t0 = time.time()
     n_var = n_bad = 0
-    with open(a.out, "w") as out, ProcessPoolExecutor(max_workers=a.jobs, max_tasks_per_child=40) as ex:
-        for r in ex.map(run_variant, jobs, chunksize=4):
-            if r is None:
-                continue
-            n_var += 1
-            if r["status"] != "ran" or r["fired"] or r["errors"]:
-                n_bad += 1
-                out.write(json.dumps(r) + "\n")
-                out.flush()
-                print("%-10s %s %s: %s %s" % (r["job"][3], r["job"][1], r["job"][2], r["status"],
-                                              (r.get("fired") or r.get("errors") or r.get("why"))[:3] if r["status"] == "ran"
-                                              else r.get("why")), flush=True)
+    with open(a.out, "w") as out:
+        # a fresh pool per batch: the analysis caches of a worker grow with every variant it has loaded
+        for b0 in range(0, len(jobs), 320):
+            with ProcessPoolExecutor(max_workers=a.jobs) as ex:
+                try:
+                    results = list(ex.map(run_variant, jobs[b0:b0 + 320], chunksize=2))
+                except Exception as e:
+                    print("batch %d crashed: %r" % (b0, e), flush=True)
+                    continue
+            for r in results:
+                if r is None:
+                    continue
+                n_var += 1
+                if r["status"] != "ran" or r["fired"] or r["errors"]:
+                    n_bad += 1
+                    out.write(json.dumps(r) + "\n")
+                    out.flush()
+                    print("%-10s %s %s: %s %s" % (r["job"][3], r["job"][1], r["job"][2], r["status"],
+                                                  (r.get("fired") or r.get("errors") or r.get("why"))[:3]
+                                                  if r["status"] == "ran" else r.get("why")), flush=True)
+            print("... %d/%d jobs, %d variants, %d not silent, %.0fs" % (min(b0 + 320, len(jobs)), len(jobs), n_var, n_bad,
+                                                                         time.time() - t0), flush=True)
     print("variants: %d, not silent: %d, %.0fs" % (n_var, n_bad, time.time() - t0))
 
 
